@@ -1124,3 +1124,42 @@ Proof.
   - now apply int_dec_roundtrip.
   - now apply int_unsigned_roundtrip.
 Qed.
+
+(* ================================================================== any injective escape table *)
+
+(* the reader's table that undoes a writer's table *)
+Definition invert_table (se : list (N * N)) : list (N * N) := map (fun cl => (snd cl, fst cl)) se.
+
+(* admissible writer tables: distinct letters (injective), no NUL among the escaped bytes, the quote and
+   the backslash are escaped *)
+Definition show_table_ok (se : list (N * N)) : Prop :=
+  NoDup (map snd se) /\ Forall (fun cl => fst cl <> 0) se /\
+  assoc c_quote se <> None /\ assoc c_bslash se <> None.
+
+Lemma assoc_invert : forall se c l, NoDup (map snd se) -> In (c, l) se -> assoc l (invert_table se) = Some c.
+Proof.
+  induction se as [|[a b] r IH]; intros c l Hnd Hin; [destruct Hin|].
+  cbn [invert_table map fst snd assoc]. cbn [map snd] in Hnd. inversion Hnd as [|? ? Hnotin Hnd']; subst.
+  destruct (N.eqb_spec b l) as [->|Hne].
+  - destruct Hin as [E|Hin]; [inversion E; reflexivity|].
+    exfalso. apply Hnotin. change l with (snd (c, l)). now apply in_map.
+  - destruct Hin as [E|Hin]; [inversion E; congruence|]. now apply IH.
+Qed.
+
+Lemma show_table_ok_tables : forall se, show_table_ok se -> esc_tables_ok se (invert_table se) = true.
+Proof.
+  intros se (Hnd & Hnz & Hq & Hb). unfold esc_tables_ok.
+  apply andb_true_intro. split; [apply andb_true_intro; split|].
+  - apply forallb_forall. intros [c l] Hin. cbn [fst snd].
+    rewrite (assoc_invert se c l Hnd Hin). rewrite N.eqb_refl. cbn [andb].
+    rewrite Forall_forall in Hnz. specialize (Hnz (c, l) Hin). cbn [fst] in Hnz.
+    apply N.eqb_neq in Hnz. now rewrite Hnz.
+  - destruct (assoc c_quote se); [reflexivity|congruence].
+  - destruct (assoc c_bslash se); [reflexivity|congruence].
+Qed.
+
+(* String round trip for EVERY admissible escape table, read back with the inverse table *)
+Theorem string_roundtrip_any_table : forall se, show_table_ok se ->
+  forall s rest, nul_free s ->
+  look_string true (invert_table se) (show_string se s ++ rest) = LDone s (length (show_string se s)).
+Proof. intros se H s rest Hs. apply string_roundtrip; [now apply show_table_ok_tables | assumption]. Qed.
